@@ -192,6 +192,7 @@ pub struct CodegenContext {
     current_scope_nx: SymbolIndex,
 
     next_macro_scope_id: usize,
+    macro_invocation_depth: usize,
 
     test_elements: Vec<TestElement>,
 
@@ -239,6 +240,7 @@ impl CodegenContext {
             current_scope: IdentifierPath::empty(),
             current_scope_nx: SymbolIndex::new(0),
             next_macro_scope_id: 0,
+            macro_invocation_depth: 0,
             test_elements: vec![],
             source_map: SourceMap::default(),
         }
@@ -999,11 +1001,24 @@ impl CodegenContext {
                         .expect_args(name.span, args.len(), def.args.len())
                         .map_err(|e| self.map_evaluation_error(e))?;
 
+                    // A macro that (directly or indirectly) invokes itself would never stop expanding
+                    const MAX_MACRO_INVOCATION_DEPTH: usize = 64;
+                    if self.macro_invocation_depth >= MAX_MACRO_INVOCATION_DEPTH {
+                        return Err(Diagnostic::error()
+                            .with_message(format!(
+                                "macro '{}' is nested more than {} invocations deep (recursive macro?)",
+                                name.data, MAX_MACRO_INVOCATION_DEPTH
+                            ))
+                            .with_labels(vec![name.span.to_label()])
+                            .into());
+                    }
+
                     let macro_scope =
                         Identifier::new(format!("$macro_{}", self.next_macro_scope_id));
                     self.next_macro_scope_id += 1;
 
-                    self.with_scope(&macro_scope, None, |s| {
+                    self.macro_invocation_depth += 1;
+                    let result = self.with_scope(&macro_scope, None, |s| {
                         for (idx, arg_name) in def.args.iter().enumerate() {
                             let (expr, _) = args.get(idx).unwrap();
 
@@ -1028,7 +1043,9 @@ impl CodegenContext {
                         }
 
                         Ok(())
-                    })?;
+                    });
+                    self.macro_invocation_depth -= 1;
+                    result?;
                 } else {
                     self.undefined.insert(UndefinedSymbol {
                         scope_nx: self.current_scope_nx,
